@@ -134,6 +134,11 @@ func Assert(label string, b bool) {
 func Reach(label string)       {}
 func Known(id string, b bool)  {}
 func Note(s string)            {}
+
+// EnvBarrier separates two runs that must not observe each other's environment: natively it
+// lets the wall clock advance past a second boundary; symbolically it is a no-op (every
+// time.Now() call already returns a fresh value).
+func EnvBarrier() { time.Sleep(1100 * time.Millisecond) }
 func Thorough() bool           { return thorough }
 func And(a, b bool) bool       { return a && b }
 func Or(a, b bool) bool        { return a || b }
